@@ -163,18 +163,19 @@ ADDENDA = {
     "C01": "Extended: hosted did:web issuers; key-history grid on a second node (did:nuts + did:web; v1 key1, v2 +key2, v3 -key1, deactivated) at validation times inside the recorded version intervals; credentialStatus arrays over an alphabet of entries (unusable lists, other purposes, unknown types); re-verification after list re-issue and node restart.",
     "C02": "Extended: late replay in the skew tail, scope lists, backdated over-long validity, audiences that extend/truncate/re-case this server's identifier, two-presentation assertions (accepted controls, 10 defects on the mapped or the other presentation, both orders). Round 5: OpenID4VP wallet-response leg - the real authorization-code flow runs until the node's own wallet posts to the verifier's direct_post endpoint, the proxy withholds that post and the harness plays the wallet (did:jwk holders, jwt_vp and ldp_vp over the session's real nonce/state): 3 controls and 72 distinct single defects (nonce/state of another, finished or unknown session, audience, signer != subject, non-matching or revoked/expired credential, forged/permuted/empty descriptor map, tampered signatures, other subject's endpoint, second use, two-presentation arrays in both orders), one fresh session each; a defective response must never lead to a token at the token endpoint or a token-store write.",
     "C03": "Extended: private half of every held key family x 5 header forms x 12 signing entry points; kid life-cycle programs (create, warm up, re-point by Link/New/Delete also inside committed and rolled-back SQL transactions, use again) on two key stores with a harness-kept designation table.",
-    "C04": "Extended: hostile path-parameter values on parameterised routes in every tier, deferred calibration judgement.",
+    "C04": "Extended: hostile path-parameter values on parameterised routes in every tier, deferred calibration judgement. Round 5: presentation sequences (short-lived tokens presented repeatedly while valid, failing credentials derived from a just-accepted one, six presentations after expiry on a monotonic stopwatch) and 12 listener configurations (http.internal.address empty/blank/unset/:0/no port via env, file, flag) booted through cmd.Execute with the public listener probed.",
     "C05": "Extended: store-fault enumeration below the session database (every backend operation of a presentation lost or answered with an error, single and outage-spanning, also steered two-actor), volume phase (1 000 ... 262 144 live entries between use and replay).",
     "C06": "Extended: every third valid offer is first made to fail in the store (commit refused, caller gone, n-th Put failing) and the full snapshot incl. reported clock compared.",
     "C08": "Extended: repair on 513/1025-transaction chains.",
-    "C09": "Extended: id text-extension rules, percent-escaped thumbprint, byte-for-byte republication by an outsider, publicKeyJwk declaring its own kid, RSA and Ed25519 verification methods.",
-    "C11": "Extended: signed revocations (genuine + 7 forgeries, hosted did:web), re-issue racing revocations, stored lists aged (document and expiry column) to 20 min left / 1 h / 5 h past expiry.",
+    "C09": "Extended: id text-extension rules, percent-escaped thumbprint, byte-for-byte republication by an outsider, publicKeyJwk declaring its own kid, RSA and Ed25519 verification methods. Round 5: 19 uniqueness rules with realistic mixed-case service types/ids in seven arrangements; update-style transactions for DIDs no version of which is known (4 target kinds x 9 payload shapes x prev choices) followed by the rightful creation.",
+    "C11": "Extended: signed revocations (genuine + 7 forgeries, hosted did:web), re-issue racing revocations, stored lists aged (document and expiry column) to 20 min left / 1 h / 5 h past expiry. Round 5: SQL fault enumeration below the status-list store (gorm callbacks on the node's DB + SQLite ABORT triggers over every statement of revoke/issue/roll-over/serve; what the node reported must show afterwards); multi-entry credentialStatus arrays (revoked entry at every position of 2-4 entries x 14 neighbour kinds).",
     "C12": "Extended: same-id and id-less twin credentials with the map forged at the twin; typeless filters refuted by the reference, edge batch of filter vocabulary (enum+pattern, enum+const), one-sided verifier probes on single-descriptor definitions.",
     "C13": "Extended: node configurations with one method and a mid-sequence upgrade, single-change and no-op operations, failing clean-up transaction, operations on deactivated subjects, 8 subject-name families with ~45 look-alike lookups per name and operations on names no subject has.",
     "C14": "Extended: must-refuse offers, offers failing in the store and repeated offers woven into every scenario; completions recorded by another party at three positions x five receiver outcomes; torn ledger tails ignored by shape.",
     "C15": "Extended: redelivery of admitted transactions (8 payload variants, range and list conversations), same-payload-hash alias transactions (incl. empty pal header), the real Network.CreateTransaction with 27+ participant situations (ground truth = the list the application asked for), serving while the own document is deactivated/unresolvable.",
     "C16": "Extended: three-credential service (clause x position x neighbour expiry), hosted did:web identities whose documents fail and heal between client passes, mixes of never/now/later verifiable entries on two services.",
-    "C17": "Extended: one attacker key per JWK family (EC P-256/384/521, RSA, Ed25519, X25519, oct) in every private form, really signed, for every consumer; did:jwk kid of a private key; hosted did:web kid-other-party.",
+    "C17": "Extended: one attacker key per JWK family (EC P-256/384/521, RSA, Ed25519, X25519, oct) in every private form, really signed, for every consumer; did:jwk kid of a private key; hosted did:web kid-other-party. Round 5: eighth consumer access-token-v1 (legacy introspect/verify endpoints) incl. a foreign-signer class (8 resolvable foreign signers) and a key-store fault dimension (decorated key store of the running node, 4 fault modes).",
+    "C18": "Round 5: notable-port generator (scheme defaults, their neighbours and look-alikes, range boundaries) for every ported identifier, port sweep (57 notable ports x 9 path shapes x 14 host shapes; every port 1..65535 in thorough) through both round-trip laws, collapse monitor (two distinct in-class identifiers/URLs never convert to the same result).",
     "C19": "Extended to 79 entry points: hostile remote server behind the real caching HTTP clients (length/caching-header/cache-state grid, consumption bound), status-list refresh sequences, discovery client answers, PE descriptor x requirement x credential grid (also through discovery search and the token endpoint), DAG state x relation x clock grid in a child process with an allocation budget, key-shape x alg grid over 9 entry points.",
     "C20": "Extended: ~80 kinds of look-alike URL per JSON-LD allow-list/local-mapping entry on three routes incl. redirect/Link carriers; bystander option factors (http.cache.maxbytes, operational bundles); the real http.Engine.Configure per strictmode x cache size; StatusList2021 fetch and n2n token request as further outbound consumers; all flag orders around a command-line secret.",
 }
